@@ -32,7 +32,7 @@ type pkgSpec struct {
 	full func(name string) bool
 	// per-file import maps overriding imports
 	fileImports map[string]map[string]string
-	export      string // file under verif/export to add as zz_verif_export.go
+	export      string // directory under verif/export whose files are added as zz_verif_<name>.go
 }
 
 func fail(format string, a ...any) {
@@ -56,19 +56,19 @@ func main() {
 	switch *mode {
 	case "seq":
 		specs = []pkgSpec{
-			{dir: ".", imports: map[string]string{}, full: func(string) bool { return false }, export: "ristretto_export.go"},
-			{dir: "z", imports: logMap, full: func(string) bool { return false }, export: "z_export.go"},
+			{dir: ".", imports: map[string]string{}, full: func(string) bool { return false }, export: "root"},
+			{dir: "z", imports: logMap, full: func(string) bool { return false }, export: "z"},
 		}
 	case "sched":
 		specs = []pkgSpec{
 			{dir: ".", imports: map[string]string{
 				"sync": "verif/shim/vsync", "sync/atomic": "verif/shim/vatomic", "time": "verif/shim/vtime", "log": "verif/shim/vlog"},
-				export: "ristretto_export.go"},
+				export: "root"},
 			{dir: "z", imports: logMap,
 				full: func(n string) bool { return n == "allocator.go" },
 				fileImports: map[string]map[string]string{
 					"allocator.go": {"sync": "verif/shim/vsync", "sync/atomic": "verif/shim/vatomic", "log": "verif/shim/vlog"}},
-				export: "z_export.go"},
+				export: "z"},
 		}
 	default:
 		fail("bad mode %q", *mode)
@@ -195,7 +195,11 @@ func rewritePkg(repo, verif, out string, sp pkgSpec, exports map[string]string, 
 		overlay[filepath.Join(dir, n)] = dst
 	}
 	if sp.export != "" {
-		overlay[filepath.Join(dir, "zz_verif_export.go")] = filepath.Join(verif, "export", sp.export)
+		// every file of export/<dir> is added to the package as zz_verif_<name>
+		exps, _ := filepath.Glob(filepath.Join(verif, "export", sp.export, "*.go"))
+		for _, e := range exps {
+			overlay[filepath.Join(dir, "zz_verif_"+filepath.Base(e))] = e
+		}
 	}
 }
 
